@@ -5,7 +5,7 @@ P=$1; F=$2; shift 2
 D=/dev/shm/verif-mut-$$
 mkdir -p $D && cp -r /repo/mpgameserver $D/ && cp -r /repo/tests $D/ 2>/dev/null
 python3 /verif/tools/repl.py $D/mpgameserver/$F || { rm -rf $D; exit 3; }
-cd /verif && SX_REPLAY_DIR=$D/replays VERIF_REPO=$D timeout 1200 ./check $P --no-evidence "$@" | tail -6
-rc=$?
+cd /verif && SX_REPLAY_DIR=$D/replays VERIF_REPO=$D timeout 1200 ./check $P --no-evidence "$@" > $D/out.txt; rc=$?; grep -E "^(C[0-9]+ tier|VIOLATION|KNOWN-FINDING|  L)" $D/out.txt | cut -c1-300 | head -12; echo "inconclusive lines: $(grep -c ^INCONCLUSIVE $D/out.txt) exit=$rc"
+true
 rm -rf $D
 exit $rc
